@@ -55,6 +55,17 @@ func checkC14(w *World) {
 	docRule(P, "R14.4", "P", "CLI pairing: each worker entry defers WaitGroup.Done and the semaphore release (so they run on every exit, panics included); each spawn site performs the semaphore acquire and WaitGroup.Add(1) before starting the worker; main calls Wait after the last spawn.")
 
 	e := w.Effects()
+	for _, ep := range w.purityEntries() {
+		if ep.Fn != nil {
+			e.summary(ep.Fn)
+		}
+	}
+	for _, f := range []string{"main", "runXpathOnFile", "runXpathOnStdin"} {
+		if fn := w.member("xsel", f); fn != nil {
+			e.summary(fn)
+		}
+	}
+	e.settle()
 	// R14.1
 	for _, ep := range w.purityEntries() {
 		if ep.Fn == nil || strings.HasPrefix(ep.Name, "exec.Unmarshal") {
